@@ -9,7 +9,7 @@ From Coq Require Import List NArith Bool.
 From SV Require Import Text.Str Text.Prog Text.Tokenizer.
 From SV Require Import KV.KvBase KV.KvLex KV.KvParse KV.KvSer KV.KvSym KV.KvParseProofs KV.KvRoundtrip KV.KvStrip
   KV.KvRefine KV.KvDelivery KV.KvExport KV.KvFlags KV.KvLoop KV.KvLoopRef KV.KvLoopProofs KV.KvLoopEquiv KV.KvLoopRoundtrip
-  KV.KvWriter KV.KvFlagProg KV.KvWProg KV.KvProperty.
+  KV.KvWriter KV.KvFlagProg KV.KvWProg KV.KvProperty KV.KvNoEsc.
 Import ListNotations.
 Open Scope N_scope.
 
@@ -336,6 +336,16 @@ Proof. exact wexec_text. Qed.
 
 Theorem writer_program_with_store_rejected : wprog_pure storing_wprog = false.
 Proof. exact storing_wprog_rejected. Qed.
+
+(** allow_escapes=False (the C03 tokenizer model with the option off + the token loop; compared with the implementation
+    on every run, no general theorem): the round trip does not hold under it -- a tab comes back as backslash + t, a
+    quote ends the string early. *)
+Theorem kv_roundtrip_no_escapes_refuted :
+  parse_kv_reader_noesc ref_pcfg default_popts ref_tables (fun _ => false) 60 60
+    (chk_of_str (ref_text (Leaf [97] [120; 9; 121]))) = POk [Leaf [97] [120; 92; 116; 121]] /\
+  parse_kv_reader_noesc ref_pcfg default_popts ref_tables (fun _ => false) 60 60
+    (chk_of_str (ref_text (Leaf [97] [120; 34; 121]))) = PErr EMultipleNames.
+Proof. exact (conj noesc_tab_refuted noesc_quote_refuted). Qed.
 
 (** * THE WHOLE PROPERTY in one statement, every hypothesis visible (all nine are decidable conditions on objects
     regenerated from the source, discharged in the kernel by the check on every run).
